@@ -134,6 +134,28 @@ NEEDS5 = {
  "C20-5": ("DFS collects the unvisited neighbours on entry and calls back afterwards", "a shortcut edge a->c next to a->b->c and an order yielding b first: c is descended into twice"),
  "C20-6": ("Tarjan's inStack compares DFS indexes", "an edge into a component already completed in the same DFS tree, order-dependent"),
 }
+NEEDS6 = {
+ "C01-7": ("Func.graph adds converter outputs by ranging over the ordered output list while outputValues still distributes by type-/name-keyed maps", "a struct-form converter with two same-typed outputs differing only in subtype and a consumer of the non-last one"),
+ "C01-8": ("Func.argBuilder merges defaults and call options with append(f.callOpts, opts...)", "two functions whose default slices share a backing array with spare capacity; f.Call(Named b) then g.Call() (reported by C16's alias histories and by C12)"),
+ "C03-7": ("(*Value).vertex copies the Value and Func.graph reuses it", "values written into the target's Input() set by a BuildFunc(target.Input()) wrapper called earlier; the original target then sees the stale value (reported by C15's wrapper histories)"),
+ "C03-8": ("the keep-alive edge of a zero-argument converter gets weight 0", "an exact typed input plus a provider publishing a named value of that type: a 6/6 tie decided by iteration order"),
+ "C04-7": ("Call copies an *ErrArgumentUnsatisfied coming out of reachTarget to fill in Inputs/Converters", "a failing converter whose own error is an *ErrArgumentUnsatisfied (a converter delegating to another Func)"),
+ "C04-8": ("a failing nested reach is ignored when the converter is a memoized FuncOnce function", "a two-input run-once converter memoized by an earlier call, then a call in which the converter feeding its secondary input fails"),
+ "C05-7": ("weightMatchingName becomes -2", "same-named struct converters with a cycle a:T1<->a:T2 and independent producers of both, plus an unlucky order"),
+ "C05-8": ("the interface-implementation loop skips candidates whose own type is an interface", "an interface parameter whose only source is a converter result of a wider interface type"),
+ "C06-7": ("the visited set is removed from Dijkstra", "a named argument a, a converter a:T -> a:T/sub and a:T itself produced by a converter: a negative cycle through the name discount, EdgeToPath never ends"),
+ "C06-8": ("the named-subtype fallback drops its type comparison", "a named parameter a:T1 not supplied directly and a same-named value of another type with a subtype"),
+ "C08-7": ("reachTarget takes the next path element as 'input' when the path starts at a zero-argument converter", "a provider with a named (struct) output and a filter rejecting that type"),
+ "C08-8": ("supplied inputs are recognised by 'value is not the zero value' instead of by identity", "a caller-supplied named value that is the zero value of its type, used as the source of a conversion"),
+ "C09-7": ("only builder.convs are swapped for zero-producing copies, before the graph is built", "a converter handed out by a ConverterGen generator on the planned path"),
+ "C09-8": ("ordinary functions are neutralised in place and restored only after reachTarget succeeded", "a Redefine that fails late (in the walk), then a Call through the same shared functions"),
+ "C11-7": ("the memo is held by value and 'already ran' is decided by out != nil", "a run-once function without any result, as the target, called twice"),
+ "C11-8": ("the memo check moves above the lock and is not repeated under it", "two calls first needing the function with overlapping executions"),
+ "C12-7": ("Func.argBuilder merges defaults and call options with append(f.callOpts, opts...)", "defaults in a slice with spare capacity and concurrent calls with their own options"),
+ "C12-8": ("Converter(...) parses lazily and caches the parsed list inside the option closure", "one never-applied Converter(f1..f5) option shared by goroutines whose first applications overlap"),
+ "C13-7": ("missing arguments are looked up again through f.input.Named/Typed", "two type-only parameters of one type differing in subtype (or two fields mapped to one name), the hopeless one not declared last"),
+ "C13-8": ("NamedSubtype pre-builds its one-entry subtype table outside the closure and installs it into the builder", "an option value kept by the caller: used once next to another NamedSubtype of the same name, then alone — the other subtype is still there"),
+}
 NEEDS.update(NEEDS2)
 NEEDS.update(NEEDS3)
 NEEDS.update(NEEDS4)
@@ -154,6 +176,11 @@ for k in NEEDS4:
 for k in NEEDS5:
     prop, n = k.split("-")
     SRC[k] = ("/tmp/seed5/%s" % prop, str(int(n) - 4), "third round: same brief as the second, fresh agents")
+
+NEEDS.update(NEEDS6)
+for k in NEEDS6:
+    prop, n = k.split("-")
+    SRC[k] = ("/tmp/seed6/%s" % prop, str(int(n) - 6), "fourth round: same brief, fresh agents")
 
 def parse(path):
     res = {}
@@ -180,6 +207,8 @@ for f in sys.argv[1:]:
         f, off = f[:-3], 2
     if f.endswith(":+4"):
         f, off = f[:-3], 4
+    if f.endswith(":+6"):
+        f, off = f[:-3], 6
     for k, v in parse(f).items():
         if off:
             pp, nn = k.split("-")
@@ -228,7 +257,7 @@ for key in sorted(NEEDS):
 
 with open(out + "/RESULTS.md", "w") as f:
     f.write("# Seeded property-breaking changes: which checks catch which\n\n")
-    f.write("Ids <prop>-1/-2 are the first round, -3/-4 the second round (agents asked for changes that need two or three conditions at once), -5/-6 a third round with the same brief. ")
+    f.write("Ids <prop>-1/-2 are the first round, -3/-4 the second round (agents asked for changes that need two or three conditions at once), -5/-6 a third round with the same brief, -7/-8 a fourth. ")
     f.write("Each change was written by a fresh sub-agent that saw only the text of one property and a scratch worktree (nothing from /verif). `confirmed` = I re-ran, in my own scratch worktree: the demo passes on the clean tree, the existing suite passes with the change, the demo fails with the change. Checks were run with `./seedeval.sh` (scratch worktree + `VERIF_REPO`), i.e. the registered quick commands against a copy of the library carrying the change.\n\n")
     f.write("| id | change | needs | confirmed | caught by (quick) | run but silent |\n|---|---|---|---|---|---|\n")
     for key, m in rows:
